@@ -3,6 +3,8 @@ package main
 import (
 	"fmt"
 
+	"github.com/bluenviron/mediacommon/v2/pkg/codecs/h264"
+
 	"verifharness/internal/rng"
 )
 
@@ -50,6 +52,7 @@ func fixedScenarios() []force {
 	}
 	opus := func(name, lang int) tcfgA { return tcfgA{Kind: kOpus, Rate: 48000, SRate: 48000, Name: name, Lang: lang} }
 	vid := func(k int, p int64) tcfgA { return tcfgA{Kind: k, Rate: 90000, Params0: p} }
+	vidR := func(p int64) tcfgA { return tcfgA{Kind: kH264, Rate: 90000, Params0: p, Reorder: true} }
 	return []force{
 		{name: "av1-index", variant: 2, tracks: []tcfgA{vid(kAV1, 0)}, target: "index"},
 		{name: "vp9-index", variant: 2, tracks: []tcfgA{vid(kVP9, 0)}, target: "index"},
@@ -87,6 +90,11 @@ func fixedScenarios() []force {
 		{name: "f27-ll-h265-sps-forced-segment-open", variant: 3, tracks: []tcfgA{vid(kH265, 0), aac(48000, 0, 0, false)}, target: "index", paramKind: "sps", singleChangePct: 50, attachAfterChangeMs: 250, gop: 8, segMin: 1000e6, partMin: 100e6, mediaMs: 5000},
 		{name: "f27-ll-av1-forced-segment-open", variant: 3, tracks: []tcfgA{vid(kAV1, 0)}, target: "media:0", singleChangePct: 50, attachAfterChangeMs: 250, gop: 8, segMin: 1000e6, partMin: 100e6, mediaMs: 5000},
 		{name: "f27-ll-vp9-forced-segment-open", variant: 3, tracks: []tcfgA{vid(kVP9, 0)}, target: "index", singleChangePct: 50, attachAfterChangeMs: 250, gop: 8, segMin: 1000e6, partMin: 100e6, mediaMs: 5000},
+		// H264 with B pictures (dts < pts on the reordered units), every variant
+		{name: "ts-h264-reorder", variant: 1, tracks: []tcfgA{vidR(2)}, target: "index"},
+		{name: "ts-h264-reorder-aac", variant: 1, tracks: []tcfgA{vidR(3), aac(48000, 0, 0, false)}, target: "media:0"},
+		{name: "fmp4-h264-reorder", variant: 2, tracks: []tcfgA{vidR(3), opus(0, 0)}, target: "index"},
+		{name: "ll-h264-reorder", variant: 3, tracks: []tcfgA{vidR(2)}, target: "index"},
 		{name: "ts-h264-short-segments", variant: 1, tracks: []tcfgA{vid(kH264, 1)}, target: "media:0", segMin: 250e6},
 	}
 }
@@ -124,6 +132,17 @@ func leadingTrack(h *history) int {
 // follow within a few seconds of media: short segments, frequent key frames) and a well-formed
 // write sequence spanning MediaMs of media.
 func genPair(seed uint64, id int, f *force) pairDesc {
+	p, ok := genPairR(seed, id, f, true)
+	if !ok {
+		// the generator's DTS extractor instance rejected a unit of a reordered H264 stream: such a unit
+		// would be dropped by the muxer in mid-stream; the pair is drawn again without reordering
+		p, _ = genPairR(seed, id, f, false)
+	}
+	return p
+}
+
+func genPairR(seed uint64, id int, f *force, allowReorder bool) (pairDesc, bool) {
+	ok := true
 	r := rng.New(seed, uint64(id)+7919)
 	var p pairDesc
 	p.ID, p.Seed = id, seed
@@ -216,9 +235,18 @@ func genPair(seed uint64, id int, f *force) pairDesc {
 			v.Params0 = int64(r.Intn(12))
 			if v.Kind == kH264 {
 				v.Params0 = 1
+				if r.Bool(1, 2) { // picture reordering: B pictures, dts < pts
+					v.Reorder = true
+					v.Params0 = int64(2 + r.Intn(2))
+				}
 			}
 			pos := r.Intn(len(tracks) + 1)
 			tracks = append(tracks[:pos], append([]tcfgA{v}, tracks[pos:]...)...)
+		}
+	}
+	if !allowReorder {
+		for i := range tracks {
+			tracks[i].Reorder = false
 		}
 	}
 	h.Tracks = tracks
@@ -263,6 +291,15 @@ func genPair(seed uint64, id int, f *force) pairDesc {
 		gop      int
 		sinceKey int
 		params   pset
+		// H264 with reordering: display-order bookkeeping and the generator's own DTS extractor instance
+		ex      *h264.DTSExtractor
+		bf      int   // at most this many B pictures between two anchors
+		pocBase int   // pic_order_cnt_lsb of the GOP's IDR picture
+		gopBase int64 // presentation time of the GOP's IDR picture
+		disp    int   // display index of the last anchor of the GOP
+		pendB   []int // display indices of the B pictures still to be written (decode order: after their anchor)
+		lastPTS int64
+		havePTS bool
 	}
 	st := make([]tstate, len(tracks))
 	var startSec int64
@@ -313,12 +350,16 @@ func genPair(seed uint64, id int, f *force) pairDesc {
 				s.frameDur = 3003
 			}
 			s.jitter = r.Bool(1, 4)
+			if t.Reorder {
+				s.jitter = false
+				s.bf = 1 + r.Intn(2)
+			}
 			s.gop = []int{2, 3, 5, 8, 12}[r.Intn(5)]
 			if f != nil && f.gop != 0 {
 				s.gop = f.gop
 			}
 			s.sinceKey = r.Intn(s.gop + 1) // may start mid-GOP
-			if s.sinceKey == 0 {
+			if s.sinceKey == 0 || t.Reorder {
 				s.sinceKey = s.gop
 			}
 			s.dts = startSec * 90000
@@ -357,7 +398,7 @@ func genPair(seed uint64, id int, f *force) pairDesc {
 		a := auA{Track: ti}
 		switch t.Kind {
 		case kH264, kH265, kVP9, kAV1:
-			key := s.sinceKey >= s.gop
+			key := s.sinceKey >= s.gop && len(s.pendB) == 0 // (a GOP is closed: no B picture outstanding)
 			if key {
 				s.sinceKey = 0
 			}
@@ -417,6 +458,40 @@ func genPair(seed uint64, id int, f *force) pairDesc {
 			}
 			a.DTS = s.dts
 			a.PTS = s.dts
+			if t.Reorder {
+				// presentation times follow the display order, units are written in decode order
+				// (I0 P(k+1) B1 .. Bk P ..); pic_order_cnt_lsb = pocBase + 2 * display index; the written DTS is
+				// what the generator's own instance of mediacommon's DTS extractor returns for the access unit
+				fd := s.frameDur
+				switch {
+				case a.RA:
+					base := a.PTS
+					if s.havePTS && s.lastPTS+fd > base {
+						base = s.lastPTS + fd
+					}
+					s.gopBase, s.disp = base, 0
+					s.pocBase = 0
+					if r.Bool(1, 4) {
+						s.pocBase = 2 * r.Intn(32)
+					}
+					a.PTS, a.Poc = base, s.pocBase
+				case len(s.pendB) > 0:
+					dsp := s.pendB[0]
+					s.pendB = s.pendB[1:]
+					a.BSlice = true
+					a.PTS, a.Poc = s.gopBase+int64(dsp)*fd, (s.pocBase+2*dsp)%64
+				default:
+					dsp := s.disp + 1 + r.Intn(s.bf+1)
+					for i := s.disp + 1; i < dsp; i++ {
+						s.pendB = append(s.pendB, i)
+					}
+					s.disp = dsp
+					a.PTS, a.Poc = s.gopBase+int64(dsp)*fd, (s.pocBase+2*dsp)%64
+				}
+				if !s.havePTS || a.PTS > s.lastPTS {
+					s.lastPTS, s.havePTS = a.PTS, true
+				}
+			}
 			if t.Kind == kH265 {
 				ro, tick := h265ReorderOf(s.params.S)
 				typ := h265SliceType(nextID, a.RA)
@@ -434,6 +509,18 @@ func genPair(seed uint64, id int, f *force) pairDesc {
 			}
 			a.Units = []unitA{{ID: nextID, Len: ln}}
 			nextID++
+			if t.Reorder && (s.ex != nil || a.RA) {
+				if s.ex == nil {
+					s.ex = &h264.DTSExtractor{}
+					s.ex.Initialize()
+				}
+				c := concretize(h, &a)
+				dts, err := s.ex.Extract(c.au, a.PTS)
+				if err != nil {
+					ok = false
+				}
+				a.DTS = dts
+			}
 		case kAAC:
 			n := 1
 			if r.Bool(1, 4) {
@@ -485,7 +572,7 @@ func genPair(seed uint64, id int, f *force) pairDesc {
 		a.NTP = p.NtpBase + tsNs(a.DTS, t.Rate)
 		h.Ops = append(h.Ops, a)
 	}
-	return p
+	return p, ok
 }
 
 // tsNs converts a timestamp to nanoseconds without overflowing (truncating like Go's /)
